@@ -69,19 +69,23 @@ Definition post_ok (c : case) : bool :=
       match p, k_untouched c with PDeco, Some u => u | _, _ => true end
   end.
 
-(** A model-mode case also demands the property's postcondition unless the
-    specification lies in the area of a row outside the property's list; there the
-    harness emits a separate property-mode case whose signature the known-findings
-    matcher can see. *)
+(** A model-mode case demands agreement with the model and the property's
+    postcondition.  In the area of a row outside the property's list ([flagged]) the
+    postcondition is not demanded of a model-conforming observation (the harness emits a
+    separate property-mode case there, whose signature the known-findings matcher can
+    see), and an observation that satisfies the postcondition is accepted even where
+    it departs from the model: an implementation that stops rejecting such a
+    specification conforms to the property. *)
 Definition check_case (c : case) : bool :=
   if k_prop c then post_ok c
-  else model_ok c && (flagged (k_spec c) || post_ok c).
+  else (model_ok c && (flagged (k_spec c) || post_ok c))
+       || (flagged (k_spec c) && post_ok c).
 
 Lemma check_case_model_sound c :
-  k_prop c = false -> check_case c = true ->
-  obs_matches (build (k_spec c)) (k_seen c) = true.
+  k_prop c = false -> flagged (k_spec c) = false -> check_case c = true ->
+  obs_matches (build (k_spec c)) (k_seen c) = true /\ post_ok c = true.
 Proof.
-  intros Hm H. unfold check_case in H. rewrite Hm in H.
-  apply andb_true_iff in H as [H _]. unfold model_ok in H.
-  apply andb_true_iff in H as [H _]. exact H.
+  intros Hm Hf H. unfold check_case in H. rewrite Hm, Hf in H. cbn in H.
+  rewrite orb_false_r in H. apply andb_true_iff in H as [H1 H2]. split; [|exact H2].
+  unfold model_ok in H1. apply andb_true_iff in H1 as [H1 _]. exact H1.
 Qed.
